@@ -109,3 +109,45 @@ package capacity_policy
 //@   ensures result != nil
 //@   ensures [cpuMem] result.MilliCPU == reqCpu(len(tasksToAllocate)) && result.Memory == reqMem(len(tasksToAllocate))
 //@ end
+
+// ---- entry points registered with the session -----------------------------------------------------
+//@ func (*CapacityPolicy).isJobOverCapacity
+//@   inline
+//@   loop 1 unroll 2
+//@ end
+
+// Property C08, job-level decision: Schedulable <==> for the requested quantities r of the tasks, EVERY
+// level of the job's queue chain keeps allocated + r <= limit, and (for a non-preemptible job)
+// non-preemptible allocated + r <= deserved quota.
+//@ func (*CapacityPolicy).IsJobOverQueueCapacity
+//@   props C08 C10
+//@   requires cp != nil && job != nil && tasksOK(tasksToAllocate) && sumsOf(tasksToAllocate)
+//@   requires utils.chainOK(cp.queues, job.Queue) && chainCacheOK(cp.queues, job.Queue)
+//@   modifies family(cp.queues[job.Queue].lastDeservedShare)
+//@   ensures result != nil
+//@   ensures result.IsSchedulable == (allWithinLimit(cp.queues, job.Queue, requestedShareQuantities) && (job.Preemptibility == v2alpha2.Preemptible || allWithinQuota(cp.queues, job.Queue, requestedShareQuantities)))
+//@   ensures [requestedIsSum] requestedShareQuantities["CPU"] == reqCpu(len(tasksToAllocate)) && requestedShareQuantities["Memory"] == reqMem(len(tasksToAllocate)) && requestedShareQuantities["GPU"] == requiredQuota.GPU
+//@ end
+
+//@ func (*CapacityPolicy).IsNonPreemptibleJobOverQuota
+//@   props C08 C10
+//@   requires cp != nil && job != nil && tasksOK(tasksToAllocate) && sumsOf(tasksToAllocate)
+//@   requires utils.chainOK(cp.queues, job.Queue) && chainCacheOK(cp.queues, job.Queue)
+//@   modifies family(cp.queues[job.Queue].lastDeservedShare)
+//@   ensures result != nil
+//@   ensures result.IsSchedulable == (job.Preemptibility == v2alpha2.Preemptible || allWithinQuota(cp.queues, job.Queue, requestedShareQuantities))
+//@   ensures [requestedIsSum] requestedShareQuantities["CPU"] == reqCpu(len(tasksToAllocate)) && requestedShareQuantities["Memory"] == reqMem(len(tasksToAllocate)) && requestedShareQuantities["GPU"] == requiredQuota.GPU
+//@ end
+
+// Task-level decision (the check that precedes every allocate/pipeline of one task on one node): same
+// equivalence for the quantities node.GetRequiredInitQuota(task) -- here named by the local requestedShare.
+//@ func (*CapacityPolicy).IsTaskAllocationOnNodeOverCapacity
+//@   props C08 C10
+//@   requires cp != nil && job != nil && node != nil && task != nil && task.ResReq != nil
+//@   requires node.MemoryOfEveryGpuOnNode > 0   // precondition of node_info.getGpuMemoryFractionalOnNode (float division), owned by helper "node"
+//@   requires utils.chainOK(cp.queues, job.Queue) && chainCacheOK(cp.queues, job.Queue)
+//@   modifies family(cp.queues[job.Queue].lastDeservedShare)
+//@   ensures result != nil
+//@   ensures result.IsSchedulable == (allWithinLimit(cp.queues, job.Queue, requestedShare) && (job.Preemptibility == v2alpha2.Preemptible || allWithinQuota(cp.queues, job.Queue, requestedShare)))
+//@   ensures [requestedIsInitQuota] requestedShare["CPU"] == requiredInitQuota.MilliCPU && requestedShare["Memory"] == requiredInitQuota.Memory && requestedShare["GPU"] == requiredInitQuota.GPU
+//@ end
